@@ -67,12 +67,16 @@ def find_ok(kinds, arity, calls):
 '''
 
 
-def harness(idx, nclauses, arity, ncalls):
+def harness(idx, nclauses, arity, ncalls, first=None):
+    """first: concrete kind of the first argument of the first clause (splits the selector space of a condition by 3)"""
     names = []
     kinds = []
     for c in range(nclauses):
         row = []
         for a in range(arity):
+            if first is not None and c == 0 and a == 0:
+                row.append(str(first))
+                continue
             n = "k%d_%d" % (c, a)
             names.append(n)
             row.append(n)
@@ -90,7 +94,7 @@ def harness(idx, nclauses, arity, ncalls):
     body = "    return find_ok([%s], %d, [%s])" % (", ".join(kinds), arity, ", ".join(calls))
     name = "h_ci_%d" % idx
     src = 'def %s(%s) -> bool:\n    """\n    pre: %s\n    post: _\n    """\n%s\n' % (name, sig, pre, body)
-    return xh.Harness(name, src, {"clauses": nclauses, "arity": arity, "calls": ncalls})
+    return xh.Harness(name, src, {"clauses": nclauses, "arity": arity, "calls": ncalls, "first": first})
 
 
 def main(tier, seed):
@@ -108,15 +112,17 @@ def main(tier, seed):
     i = 0
     for ncl, ar, nq in ([(1, 1, 1), (2, 1, 1), (3, 1, 1), (3, 1, 2), (2, 2, 1), (3, 2, 1), (2, 2, 2)] +
                         ([(4, 1, 2), (3, 2, 2), (4, 2, 1)] if tier == "thorough" else [])):
-        i += 1
-        hs.append(harness(i, ncl, ar, nq))
+        nsel = ncl * ar + nq * ar
+        for first in ([None] if nsel <= 4 else [0, 1, 2]):
+            i += 1
+            hs.append(harness(i, ncl, ar, nq, first))
     timeout = 60 if tier == "quick" else 600
     st = Stats()
     res, cpu = xh.run(hs, PREAMBLE, per_condition_timeout=timeout, per_module=1)
     byname = dict((h.name, h) for h in hs)
     for name, (verdict, detail) in sorted(res.items()):
         h = byname[name]
-        okey = "clauses=%d arity=%d calls=%d" % (h.meta["clauses"], h.meta["arity"], h.meta["calls"])
+        okey = "clauses=%d arity=%d calls=%d first=%s" % (h.meta["clauses"], h.meta["arity"], h.meta["calls"], h.meta["first"])
         if verdict == "confirmed":
             st.ob("proved", key=okey)
         elif verdict == "inconclusive":
@@ -140,7 +146,7 @@ def main(tier, seed):
     st["programs"] = len(hs)
     run.merge(st)
     run.bounds = {"crosshair_conditions": len(hs), "max_clauses": 4, "max_arity": 2, "per_condition_timeout_s": timeout}
-    run.extra["rule"] = "one obligation per (number of clauses, arity, number of calls) configuration; all argument-kind combinations inside"
+    run.extra["rule"] = "one obligation per (number of clauses, arity, number of calls, kind of the first head argument) configuration; all other argument-kind combinations inside"
     return run.finish()
 
 
